@@ -461,7 +461,7 @@ def parse_out(s):
 class C11(PropBase):
     pid = "C11"
     coq_dirs = ["Base", "Gen", "C08", "C09", "C11"]
-    translators = ["c11_symbolize.py"]
+    translators = ["c11_symbolize.py", "c11_compile.py"]
     bins = ["c11"]
     rule = ("case = records of one symbol file (FILE, INLINE_ORIGIN inside/outside FUNC blocks, PUBLIC, FUNC with line and "
             "multi-range INLINE records, STACK WIN) + module list (module 0 = base/size with symbols, optional further modules "
@@ -486,7 +486,11 @@ class C11(PropBase):
         "(parsed tables and every callback argument compared) and (2) by translate/c11_symbolize.py: a template matcher (regular expressions over the "
         "comment-stripped, whitespace-normalised function bodies) whose holes - comparison operators, operands, constants, table order, lookup keys, loop "
         "start/stop - are translated to Gallina (Gen/C11Sym.v) and proved equal to the model (c11_source_tie); the templates' literal text and the "
-        "Gallina skeleton the holes are spliced into are trusted to say the same thing; reuses the C08 range-table model",
+        "Gallina skeleton the holes are spliced into are trusted to say the same thing; reuses the C08 range-table model; and (3, round 5 second pass) by translate/c11_compile.py, a small "
+        "compiler (tokeniser + recursive-descent parser for a Rust subset + continuation-passing code generator, field types read from the struct declarations) that translates the bodies of "
+        "get_inlinee_at_depth, get_outermost_sourceloc, get_innermost_sourceloc, find_nearest_public and fill_symbol statement by statement into Gallina (Gen/C11Src.v) over the vocabulary "
+        "C11/Prims.v (vec_index, usize_sub, bres_err, opt_and_then, the three FrameSymbolizer callbacks as updates of a sym_out): here the trusted part is the compiler's reading of each construct "
+        "and Prims.v, no longer a hand-written skeleton; c11_compiled_source_tie proves the compiled functions equal to the model and the compiled fill_symbol answers field D of every generated query",
         "names are modelled as integers, rendered as letter + 4 digits so that String order = integer order (PublicSymbol's derived Ord)",
         "std slice::binary_search_by modelled as the Rust >= 1.82 halving loop; Vec::sort as a stable insertion sort; HashMap as insert log",
         "extraction: ExtrOcamlBasic only; ocaml/zconv.ml + ocaml/c11/main.ml glue (it renders the case as .sym text a second time, independently of the harness, for the "
@@ -524,7 +528,10 @@ class C11(PropBase):
                 "answers from the text must equal those from the records and those of the real code; "
                 "for ALL files a covering FUNC record that intersects no other FUNC record is the one reported (c11_isolated_func_found); one symbolication makes 0 inline lookups without a covering FUNC and otherwise "
                 "1 + chain length <= INLINE ranges of the FUNC + 1, for any fuel (c11_inline_lookups_bounded); the lookup side of the model is regenerated from the Rust source on every run and proved equal "
-                "to the hand-written model (c11_source_tie: operators, operands, constants, table order, keys, loop bounds; structure pinned by templates that abort on unrecognised source). Model and real code (parser + fill_symbol + walk_stack over a module list + Symbolizer::get_symbol_at_address) are run on the same generated files in "
+                "to the hand-written model (c11_source_tie: operators, operands, constants, table order, keys, loop bounds; structure pinned by templates that abort on unrecognised source); second pass: the bodies of get_inlinee_at_depth, "
+                "get_outermost/innermost_sourceloc, find_nearest_public and fill_symbol (callbacks, early returns, `?`, the unbounded `for depth in 1..` loop as a Fixpoint over fuel, u64 +/- as trapping operations, indexing as a panic site) are COMPILED into Gallina "
+                "on every run and proved equal to the model for all arguments, panics included (c11_compiled_source_tie); on every well-formed file the compiled fill_symbol with any fuel covering the table's FUNCs equals symbolize and returns "
+                "(c11_compiled_fill_symbol), so the property theorems hold of the compiled source; the extracted compiled function answers the fill_symbol field of every generated query. Model and real code (parser + fill_symbol + walk_stack over a module list + Symbolizer::get_symbol_at_address) are run on the same generated files in "
                 "debug and release; an independent Python linear-scan oracle judges the real output.",
         "note": "Trusted: Coq kernel; hand-written model (correspondence-checked, parser table construction included); ExtrOcamlBasic extraction + OCaml/Rust glue; "
                 "std binary search and sort modelled from their documented algorithms. No axioms.",
